@@ -133,6 +133,22 @@ func (s *Sched) Spawn() uint64 {
 	return tok
 }
 
+// Drop releases a token whose goroutine will never start.
+//
+//go:norace
+func (s *Sched) Drop(tok uint64) {
+	raceDisable()
+	s.mu.Lock()
+	for i := range s.toks {
+		if s.toks[i].used && s.toks[i].tok == tok {
+			s.toks[i].used = false
+			break
+		}
+	}
+	s.mu.Unlock()
+	raceEnable()
+}
+
 // SpawnRoot reserves a fixed id for a goroutine started by the harness itself.
 //
 //go:norace
